@@ -226,8 +226,60 @@ Proof.
     rewrite (deref_from r (p + 4) _ _ B4 F4). reflexivity.
 Qed.
 
-(* addresses of OSC messages start with '/', in particular not with '#' *)
-Definition not_bundle_addr (a : list byte) : Prop := hd 0 a <> 35.
+(* the one address that is not a message's: "#bundle" (OSC addresses start
+   with '/'; the code special-cases exactly this string) *)
+Definition bundle7 : list byte := [35; 98; 117; 110; 100; 108; 101].
+Definition not_bundle_addr (a : list byte) : Prop := a <> bundle7.
+
+(* comparing the first bytes of a list with the magic, as a pure function *)
+Fixpoint magic_l (x l : list byte) {struct l} : option bool :=
+  match l with
+  | [] => Some true
+  | c :: t => match x with
+              | [] => None
+              | b :: x' => if b =? c then magic_l x' t else Some false
+              end
+  end.
+
+Lemma is_magic_list r : forall l i x b,
+  0 <= i -> i + zlen l <= n0 r -> from (d0 r) i = x -> magic_l x l = Some b ->
+  is_magic r i l = Ok b.
+Proof.
+  induction l as [|c t IH]; intros i x b Hi Hn Hx Hm; cbn [is_magic magic_l] in *.
+  - inversion Hm; subst. reflexivity.
+  - destruct x as [|b0 x']; [discriminate|].
+    rewrite zlen_cons in Hn. pose proof (zlen_nonneg t).
+    rewrite (deref_from r i b0 x' ltac:(lia) Hx). cbn [bind].
+    destruct (b0 =? c).
+    + apply (IH (i + 1) x' b); try lia; [eapply from_step; eassumption | assumption].
+    + inversion Hm; subst. reflexivity.
+Qed.
+
+Lemma magic_l_addr a rest :
+  nonul a -> a <> [] -> not_bundle_addr a -> magic_l (a ++ 0 :: rest) bundle_magic = Some false.
+Proof.
+  intros Hn Hne NB. unfold bundle_magic, not_bundle_addr, bundle7 in *.
+  assert (Hz : forall c (l : list byte), nonul (c :: l) -> (c =? 0) = false)
+    by (intros c l H; inversion H; subst; apply Z.eqb_neq; assumption).
+  assert (Ht : forall c (l : list byte), nonul (c :: l) -> nonul l)
+    by (intros c l H; inversion H; assumption).
+  destruct a as [|a0 a]; [congruence|]. cbn [app magic_l].
+  destruct (Z.eqb_spec a0 35) as [->|]; [|reflexivity]. apply Ht in Hn.
+  destruct a as [|a1 a]; [reflexivity|]. cbn [app magic_l].
+  destruct (Z.eqb_spec a1 98) as [->|]; [|reflexivity]. apply Ht in Hn.
+  destruct a as [|a2 a]; [reflexivity|]. cbn [app magic_l].
+  destruct (Z.eqb_spec a2 117) as [->|]; [|reflexivity]. apply Ht in Hn.
+  destruct a as [|a3 a]; [reflexivity|]. cbn [app magic_l].
+  destruct (Z.eqb_spec a3 110) as [->|]; [|reflexivity]. apply Ht in Hn.
+  destruct a as [|a4 a]; [reflexivity|]. cbn [app magic_l].
+  destruct (Z.eqb_spec a4 100) as [->|]; [|reflexivity]. apply Ht in Hn.
+  destruct a as [|a5 a]; [reflexivity|]. cbn [app magic_l].
+  destruct (Z.eqb_spec a5 108) as [->|]; [|reflexivity]. apply Ht in Hn.
+  destruct a as [|a6 a]; [reflexivity|]. cbn [app magic_l].
+  destruct (Z.eqb_spec a6 101) as [->|]; [|reflexivity]. apply Ht in Hn.
+  destruct a as [|a7 a]; [exfalso; apply NB; reflexivity|]. cbn [app magic_l].
+  rewrite (Hz a7 a Hn). reflexivity.
+Qed.
 
 Theorem message_length_enc a tags args rest n :
   msg_wf a tags args -> not_bundle_addr a ->
@@ -246,7 +298,6 @@ Proof.
   assert (Hd : exists a0 a', a = a0 :: a') by (destruct a as [|x y]; [congruence | eauto]).
   destruct Hd as (a0 & a' & Hd).
   assert (Ha0ne : a0 <> 0) by (rewrite Hd in Ha; inversion Ha; assumption).
-  assert (Ha035 : a0 <> 35) by (unfold not_bundle_addr in NB; rewrite Hd in NB; exact NB).
   pose proof (m_layout a tags args rest) as ML. fold m in ML.
   assert (Hfuel : (length (d0 r) < fuel_of r)%nat) by (unfold fuel_of; cbn [d0 d1 r length]; lia).
   unfold message_length. fold m. change {| d0 := m; n0 := n; d1 := []; n1 := 0 |} with r.
@@ -257,9 +308,12 @@ Proof.
   { cbn [d0 r]. rewrite from_0, ML, Hd. reflexivity. }
   unfold align4 in HL.
   assert (Hka : 1 <= 4 - zlen a mod 4 <= 4) by lia.
-  cbn [is_magic bundle_magic].
-  rewrite (deref_from r 0 a0 _ ltac:(cbn [n0 r]; lia) Hm0). cbn [bind].
-  replace (a0 =? 35) with false by (symmetry; apply Z.eqb_neq; assumption).
+  assert (Hmag : is_magic r 0 bundle_magic = Ok false).
+  { apply (is_magic_list r bundle_magic 0 (from (d0 r) 0) false); [lia | | reflexivity |].
+    - change (zlen bundle_magic) with 8. cbn [n0 r]. lia.
+    - cbn [d0 r]. rewrite from_0, ML. rewrite (zeros_pos _ (proj1 Hka)). cbn [app].
+      apply magic_l_addr; assumption. }
+  rewrite Hmag. cbn [bind].
   (* the address *)
   assert (Hfrom0 : from (d0 r) 0 = a ++ 0 :: zeros (4 - zlen a mod 4 - 1) ++ (44 :: tags) ++
                                    zeros (4 - (1 + zlen tags) mod 4) ++ concat (map enc_payload args) ++ rest).
